@@ -124,6 +124,11 @@ static int line_to_instr(struct instr *instr_data, char *filtered_asm_str) {
   if (TYPE(instr_data->key, CONTROL_FLOW) &&
       IN_RANGE(instr_data->cons, NEG32BIT + 1, NEG64BIT))
     instr_data->cons &= MAX_UNSIGNED_32BIT;
+  // xbegin takes a rel32 as well
+  if (NAME(instr_data->key, xbegin) &&
+      IN_RANGE(instr_data->cons, NEG32BIT + 1, NEG64BIT)) {
+    DO_NOT_PAD(instr_data->cons, instr_data->reduced_imm, MAX_UNSIGNED_32BIT);
+  }
   // encode for the reg_hex value and op_offset for instruction
   if (instr_data->opd[0].reg != reg_none ||
       instr_data->opd[0].index != reg_none) {
